@@ -56,7 +56,12 @@ type c15Obs struct {
 
 // explore scenarios: client calls on the primary while a replica session misbehaves
 func c15Scenarios() []*explore.Scenario {
+	type opts struct{ ack, lateJoin bool }
+	var mkx func(name string, window, reads int, healthy bool, clients [][]string, env map[string]int, o opts) *explore.Scenario
 	mk := func(name string, window, reads int, healthy bool, clients [][]string, env map[string]int) *explore.Scenario {
+		return mkx(name, window, reads, healthy, clients, env, opts{})
+	}
+	mkx = func(name string, window, reads int, healthy bool, clients [][]string, env map[string]int, o opts) *explore.Scenario {
 		return &explore.Scenario{Name: name, MaxSteps: 5_000_000, EnvBudgets: env,
 			Body: func() any {
 				dir := filepath.Join(fw.ProcDir("c15"), "db")
@@ -75,7 +80,26 @@ func c15Scenarios() []*explore.Scenario {
 				}
 				link := &repLink{p: prim, window: window}
 				var stalledGot []uint64
-				openSession(link, "stalled:1", 1, reads, &stalledGot)
+				stalled := openSession(link, "stalled:1", 1, reads, &stalledGot)
+				if o.ack {
+					// the stalled replica still acknowledges (its receive path is stuck, its acknowledgement path is not)
+					md, err := stalled.Header()
+					if err != nil {
+						obs.Errs = append(obs.Errs, "header: "+err.Error())
+						return obs
+					}
+					// staged: a write whose push is stuck in the stream (the window is full with the initial entries)
+					vsched.Quiesce()
+					r.Eng.Put([]byte("s"), []byte("s1"))
+					vsched.Quiesce()
+					vsched.GoNamed("ACK", func() {
+						(&memClient{link: link}).Acknowledge(metadata.NewOutgoingContext(context.Background(), md), &rp.Ack{AcknowledgedUpTo: 1})
+					})
+				}
+				if o.lateJoin {
+					// another replica connects while the clients run
+					vsched.GoNamed("JOIN", func() { openSession(&repLink{p: prim, window: 64}, "late:1", 1, 0, &obs.Healthy) })
+				}
 				if healthy {
 					l2 := &repLink{p: prim, window: 64}
 					openSession(l2, "healthy:1", 1, -1, &obs.Healthy)
@@ -130,6 +154,8 @@ func c15Scenarios() []*explore.Scenario {
 		// a healthy, acknowledging replica whose poll loop runs while clients write (lock order between log and session table)
 		mk("polling-replica-vs-put", 64, -1, false, [][]string{{"put"}}, poll),
 		mk("polling-replica-vs-commit-get", 64, -1, false, [][]string{{"commit"}, {"get"}}, poll),
+		// the stalled replica's acknowledgement arrives while a send to it is stuck, and another replica connects
+		mkx("stalled-sender-ack-join", 1, 0, false, [][]string{{"put", "put", "get"}}, nil, opts{ack: true, lateJoin: true}),
 		// (two sessions make the iteration order of the session map observable; that combination is covered by the discrete-event unit)
 	}
 }
@@ -219,7 +245,7 @@ func c15TopologyUnit(unit string, env *fw.Env) *fw.Result {
 func init() {
 	fw.Register(&fw.Check{
 		ID: "C15", Level: "model_checking",
-		Rule: "the real replication.Primary on a real engine (registered as log observer) with replica sessions over an in-memory stream of bounded window; (A) stateless exploration, all interleavings up to the deviation bound (1 quick, 2 thorough): a replica that never reads (window 1) while clients put / get / commit; a healthy acknowledging replica whose poll loop (ticker as environment event) runs while clients write; both together. Oracle: in every schedule every client call returns and returns nil - a client thread that waits, directly or through a lock chain, on a stream send or on a lock held by a replication thread shows up as the scheduler's deadlock witness. " +
+		Rule: "the real replication.Primary on a real engine (registered as log observer) with replica sessions over an in-memory stream of bounded window; (A) stateless exploration, all interleavings up to the deviation bound (1 quick, 2 thorough): a replica that never reads (window 1) while clients put / get / commit; a healthy acknowledging replica whose poll loop (ticker as environment event) runs while clients write; an acknowledgement for the stuck session and a new replica connecting while a client writes. Oracle: in every schedule every client call returns and returns nil - a client thread that waits, directly or through a lock chain, on a stream send or on a lock held by a replication thread shows up as the scheduler's deadlock witness. " +
 			"(B) discrete-event run: one replica stops reading after 1 message, one stays healthy, 45 writes over 45 s: the writer finishes, the stalled session has left GetReplicaInfo by t=45 s (heartbeat timeout 30 s), the healthy one is still listed and has received every write. Non-trivial = executions with a cross-thread conflict",
 		Assumptions: []string{"'normal time' is decided as absence of a blocking dependency on the replica (virtual time), not as a latency figure", "gRPC flow control is modelled by a bounded in-memory window"},
 		Units: func(tier string) []string {
